@@ -110,7 +110,8 @@ static void print_interest(int epfd, int block) {
     fclose(f);
   }
   qsort(ent, n, sizeof ent[0], cmp_pair);
-  printf("env pwait block=%d interest", block);
+  if (block < 0) printf("#ki");
+  else printf("env pwait block=%d interest", block);
   for (i = 0; i < n; i++) printf(" %ld:%ld", ent[i][0], ent[i][1]);
   printf("\n");
 }
@@ -165,6 +166,7 @@ static uv__io_t* io_of(struct obj* o) { return o->poll ? &o->p.io_watcher : &o->
 static void obs(void) {
   struct uv__queue* q;
   int i, first = 1;
+  print_interest(loop.backend_fd, -1);   /* monitor-only: the kernel's interest list after every op */
   printf("obs nfds=%u nw=%u wq=", loop.nfds, loop.nwatchers);
   uv__queue_foreach(q, &loop.watcher_queue) {
     printf("%s%d", first ? "" : ",", id_of_io(uv__queue_data(q, uv__io_t, watcher_queue)));
@@ -401,7 +403,9 @@ static void do_op(char* line) {
     peer_op(a, b);
   } else if (strcmp(cmd, "pinit") == 0 && n == 2) {
     int r;
-    if (fd_taken(a)) { printf("refused\n"); obs(); return; }
+    /* a registered watcher: let uv_poll_init itself refuse (UV_EEXIST); the discipline guard only
+     * covers the case libuv would accept */
+    if (fd_taken(a) && !uv__fd_exists(&loop, a)) { printf("refused\n"); obs(); return; }
     o = &objs[nobj];
     memset(o, 0, sizeof *o);
     r = nobj < MAXOBJ - 1 ? uv_poll_init(&loop, &o->p, a) : UV_ENOMEM;
